@@ -113,10 +113,11 @@ def dictPlan (size lgwin quality : Nat) : DictPlan :=
 
 /-! ## `compress_part` with the encoder as an oracle -/
 
-/-- one `compress_stream(FINISH, …)` call as observed: return value, `next_in_offset`
-after the call, bytes written to `mem` by the call -/
+/-- one `compress_stream(FINISH, …)` call as observed: return value, `state.is_finished()`
+after the call, `next_in_offset` after the call, bytes written to `mem` by the call -/
 structure CallAns where
   result : Bool
+  finished : Bool
   consumed : Nat
   produced : List Nat
   deriving DecidableEq, Repr
@@ -146,8 +147,8 @@ def partLoop : List EncAns → (availIn availOut : Nat) → (acc : List Nat) →
     if a.consumed > availIn then panic .inSlice else
     let availOut := availOut - a.produced.length
     let acc := acc ++ a.produced
-    if a.result then ok (.ok acc)
-    else if availOut = 0 then ok .err
+    if a.result ∧ a.finished then ok (.ok acc)
+    else if a.result ∨ availOut = 0 then ok .err
     else partLoop rest (availIn - a.consumed) availOut acc
 
 /-- `compress_part(hasher, thread_index, num_threads, &(input, params), alloc)`; `n` = input
